@@ -509,8 +509,9 @@ class ObjectType(Type):
                 % (value, types, ", ".join(str(cls) for cls in value.__class__.__mro__))
             )
 
-        # Check that the task has been submitted
-        if self.task and not value.__xpm__.job:
+        # Check that the task has been submitted (the value may be a task while
+        # the parameter is declared with a base type, e.g. Param[Config])
+        if (self.task or value.__xpmtype__.task) and not value.__xpm__.job:
             raise ValueError("The value must be submitted before giving it")
         return value
 
